@@ -26,9 +26,9 @@ def main():
     ctx = {"tier": "quick", "seed": 1}
     # 1. translators (coq/Gen/*.v)
     os.makedirs(os.path.join(vlib.COQ, "Gen"), exist_ok=True)
-    for m in mods:
-        if hasattr(m, "translate"):
-            m.translate(dict(ctx, pid=m.PID))
+    import translate
+    for name, ok, msg in translate.translate():
+        print("translate %s: %s (%s)" % (name, "ok" if ok else "FAILED", msg[:300]))
     # 2. the whole Coq development (full .vo build)
     vlib.coq_makefile()
     rc, out = vlib.sh("make -k -j%d" % vlib.NCPU, cwd=vlib.COQ, timeout=3400)
